@@ -4,9 +4,16 @@ Design: Lock.tla model-checked exhaustively (HolderHasFile, FreshWhileActive, No
 backend faults; negative twins: refresh that removes before it creates (must violate HolderHasFile) and the blocking
 refresher / expiry-monitor hand-over (restic before 0bbee0d26, found by this check; TLC's counterexample schedule is
 replayed into the real code, which must not show the deadlock).
-Conformance: TLC-generated fault scripts replayed into real lockers in virtual time; every observation (after each
-schedule step, after each mutating lock operation, at the instant a lock context is cancelled) is judged by TLC
-with LockRec13!RecOK = HolderHasFile /\\ FreshWhileActive /\\ ReleasedClean (LockObs.tla)."""
+Further twins: forced refresh that ignores the vanished lock file (must violate FreshWithin: a robbed holder is judged
+by the newest lock file it saved and did not remove itself), context looked at before the freeze gate of the
+connection limiting backend (must violate NoWriteAfterCancel).
+Conformance: TLC-generated fault scripts and TARGETED schedules (TLC in BFS mode prints the shortest behaviour reaching
+rarely visited branches: lock file removed between the two existence checks of the forced refresh, Remove fault in
+the forced refresh, a modification waiting at the freeze gate while the forced refresh fails / succeeds, ...) replayed
+into real lockers in virtual time, in family sema1 and the targeted schedules through the real sema backend with a
+worker issuing non-lock modifications; every observation (after each schedule step, after each mutating lock
+operation, at the instant a lock context is cancelled) and every non-lock modification reaching the store is judged
+by TLC with LockRec13!RecOK = HolderHasFile /\\ FreshWhileActive /\\ ReleasedClean /\\ NoWriteAfterCancel (LockObs.tla)."""
 import concurrent.futures as cf
 import json, os, re
 import verif
@@ -21,7 +28,12 @@ def families(ctx):
         ("down1", 1, g(1, 26, 0, "C13Faults", 1, "FALSE", "RemotesNone", 170, 2, "FALSE", 0, 60)),
         ("hold2f", 2, g(2, 24, 1, "C13Faults", 3, "TRUE", "RemotesNone", 200, 2, "TRUE", 8)),
         ("quiet1", 1, g(1, 26, 0, "NoFaults", 0, "TRUE", "RemotesNone", 170, 2, "FALSE", 0)),
+        # through the real sema backend, with a worker issuing non-lock modifications (also into the frozen backend)
+        ("sema1", 1, g(1, 26, 1, "C13Faults", 3, "TRUE", "RemotesNone", 170, 2, "FALSE", 0, maxmods=5), {"sema": True}),
     ]
+
+
+GOAL_ATTRS = {"Lock_q_mods1_goals.cfg": {"n": 1, "sema": True}}
 
 
 def signature(r, diag, i, k):
@@ -52,8 +64,9 @@ def signature(r, diag, i, k):
 def run(ctx):
     per_family = ctx.pick(70, 1200)
     with cf.ThreadPoolExecutor(max_workers=2) as ex:
-        fd = ex.submit(lc.design_runs, ctx, ctx.pick(["hold1_long"], ["hold1_long", "hold1"]),
-                       {"hold1_removefirst": ["InvHolderHasFile"], "hold1_blocking_emit": ["InvNotStaleEmit"]})
+        fd = ex.submit(lc.design_runs, ctx, ctx.pick(["q_mods1_goals", "hold1_long"], ["q_mods1_goals", "hold1_long", "hold1", "hold1_del", "mods1"]),
+                       {"hold1_removefirst": ["InvHolderHasFile"], "hold1_blocking_emit": ["InvNotStaleEmit"],
+                        "hold1_del_f2ignore": ["InvFresh"], "mods1_ctxcheckfirst": ["InvNoWriteAfterCancel"]})
         fg = ex.submit(lc.generate, ctx, families(ctx), per_family)
         scheds = fg.result()
         design = fd.result()
@@ -68,7 +81,11 @@ def run(ctx):
                 cex.append({"id": "cex-blockinghandover-%d" % j, "fam": "cex", "n": 1, "steps": steps})
     if not cex:
         raise verif.MachineryError("no counterexample schedule printed by the blocking-handover twin")
-    scheds = cex + scheds
+    goals = lc.goal_scheds([d for d in design if d["cfg"] in GOAL_ATTRS], GOAL_ATTRS)
+    need = ["robbed-before-f2", "modification-waits-while-forced-refresh-fails", "modification-waits-while-forced-refresh-succeeds"]
+    if not all(any(g in s["id"] for s in goals) for g in need):
+        raise verif.MachineryError("TLC did not reach the goal states (targeted schedules missing): %s" % [s["id"] for s in goals])
+    scheds = cex + goals + scheds
     vec = lc.write_scheds(ctx, scheds)
     out = ctx.go_test("internal/repository", "^TestVerif_C13$", tags=lc.TAGS, env={"VERIF_VECTORS": vec}, timeout=3000)
     recs = os.path.join(out, "recs.ndjson")
@@ -79,7 +96,7 @@ def run(ctx):
         with open(sub, "w") as fh:
             for i in bad:
                 fh.write(lines[i - 1] + "\n")
-        for mod in ("LockRec13HasFile", "LockRec13Fresh", "LockRec13Clean"):
+        for mod in ("LockRec13HasFile", "LockRec13Fresh", "LockRec13Clean", "LockRec13Mods"):
             _, b2, _ = ctx.check_records(mod, sub, name=mod)
             for j in b2:
                 classes.setdefault(bad[j - 1], []).append(mod[len("LockRec13"):])
@@ -102,14 +119,18 @@ def run(ctx):
                         k, who = j, x
                     elif cl == "Fresh" and holds:
                         lim = 1350000 + 60000 + p[4]
-                        ok = (o["now"] - p[7] <= lim) if p[3] == 1 else any(o["now"] - f[1] <= lim for f in own)
+                        ok = (o["now"] - p[9] <= lim) if p[3] == 1 else any(o["now"] - f[1] <= lim for f in own)
                         if not ok:
                             k, who = j, x
                     if k is not None:
                         break
                 if k is not None:
                     break
-            if cl == "HasFile":
+            if cl == "Mods":
+                bad_m = [m for m in r["mods"] if m[2] == 1]
+                key = "lock/modification-after-context-cancelled" + ("/waited-at-freeze-gate" if any(m[3] == 1 for m in bad_m) else "")
+                det = "a non-lock modification of the lock holder reached the storage (below the sema backend) although its lock context was already cancelled: %s" % bad_m[:3]
+            elif cl == "HasFile":
                 key = "lock/holder-without-lock-file"
                 det = "a process that believes to hold its lock (context alive, nobody removed its files) has no lock file"
             elif cl == "Clean":
@@ -117,8 +138,10 @@ def run(ctx):
                 det = "Unlock() returned without faults but a lock file of the process is still there"
             elif cl == "Fresh":
                 sig = signature(r, d, who, k) if k is not None else "unknown"
+                if k is not None and r["obs"][k]["p"][who][3] == 1:
+                    sig = "lock-file-removed-by-others/" + sig
                 key = "lock/not-stopped-before-stale/" + sig
-                det = "the lock context is alive although the newest lock file of the process is older than the refreshability timeout (22.5 min + 1 min slack + time stalled)"
+                det = "the lock context is alive although the newest lock file of the process (for a process whose lock file was removed by others: the newest one it saved and did not remove itself) is older than the refreshability timeout (22.5 min + 1 min slack + time stalled)"
             else:
                 key, det = "lock/c13-unclassified", "LockRec13!RecOK false"
             ctx.violate(key, "%s: schedule %s, observation %s; lock code said: %s" % (det, r["sched"], r["obs"][k] if k is not None else "?", d.get("logs")),
@@ -128,12 +151,13 @@ def run(ctx):
     cov = {"states": sum(d["states"] for d in pos), "transitions": sum(d["transitions"] for d in pos),
            "traces_validated_against_impl": n, "records_rejected": len(bad),
            "design_runs": design, "schedules_generated_by_tlc": len(scheds), "counterexample_schedules_replayed": len(cex),
+           "targeted_schedules": [s["id"] for s in goals],
            "evaluations": n, "distinct_nontrivial": res["distinct_nontrivial"], "rule": res["rule"],
            "counters": res.get("counters", {}), "samples": res.get("samples", [])[:3]}
     return verif.finish(ctx, "model_checking", cov, [
         "'before its lock could be judged stale by others' is read with the documented drift margin: a live context needs an own lock file younger than 22.5 min (30 min - 7.5 min) + 1 min slack + the time the harness stalled the process (at most 5 min in total)",
         "all lockers share the virtual clock of the synctest bubble (skew is explored in the design model only); host standby (wall clock jumps while timers sleep) cannot be produced inside synctest",
-        "a holder whose lock file was removed by somebody else is judged by the newest lock file it saved",
-        "'stops issuing modifications' is observed as cancellation of the context returned by Lock(); the frozen-backend part of the forced refresh (sema backend) is not in the stack",
+        "a holder whose lock file was removed by somebody else is judged by the newest lock file it saved and did not remove itself (the file its lock handle points to is one of them; the replacement a failed forced refresh cleans up is not)",
+        "'stops issuing modifications' is observed as cancellation of the context returned by Lock() and, in family sema1 and the targeted schedules (real sema backend between repository and store), as: no Save/Remove of a non-lock file issued by a worker with the lock context reaches the layer below the sema backend with that context cancelled; binding limits: a worker waiting at the freeze gate sits on a sync.Mutex (not durably blocked for synctest), so a modification is issued into a frozen backend only where the forced refresh can finish without virtual time passing (after its 200 ms wait, or when the next lock operation is made to fail), and no virtual time passes while one waits",
         "in-memory backend, atomic operations, one connection",
     ], exhaustive=False)
